@@ -170,12 +170,25 @@ fn check_q(case: &Case, l: &mut Local) -> Verdict {
 fn check_t(case: &Case, l: &mut Local) -> Verdict {
     check_l(case, l, 5)
 }
+fn check_3(case: &Case, l: &mut Local) -> Verdict {
+    check_l(case, l, 3)
+}
+fn gen_flag(src: &mut Src, _t: Tier) -> Case {
+    let v = flag_programs();
+    v[(src.raw() as usize).min(v.len() - 1)].clone()
+}
+/// the flag slice of C01 (all 16 i/m/s x legacy/u combinations), validated on all haystacks over {a, A, LF} up to length 3
+fn flag_programs() -> &'static Vec<Case> {
+    static S: std::sync::OnceLock<Vec<Case>> = std::sync::OnceLock::new();
+    S.get_or_init(|| super::c01::flag_slice().iter().map(|c| Case { x: json!({ "alpha": [0x61, 0x41, 0x0A] }), ..c.clone() }).collect())
+}
+pub static VF: Variant = Variant { name: "exhaustive_flag_slice", choice_len: 1, gen: gen_flag, check: check_3 };
 
 pub static V: Variant = Variant { name: "opt_vs_noopt_L4", choice_len: 400, gen, check: check_q };
 pub static VT: Variant = Variant { name: "opt_vs_noopt_L5", choice_len: 400, gen, check: check_t };
 
 pub fn variants() -> Vec<&'static Variant> {
-    vec![&V, &VT]
+    vec![&V, &VT, &VF]
 }
 
 fn small_programs() -> &'static Vec<Case> {
@@ -191,6 +204,8 @@ fn small_programs() -> &'static Vec<Case> {
 pub fn run(ctx: &Ctx) -> i32 {
     // bounded-exhaustive: every pattern of the small grammar of C01, validated on every haystack in {a,b}^<=4
     ctx.run_list(&V, small_programs());
+    let fp: Vec<Case> = flag_programs().iter().enumerate().filter(|(i, _)| ctx.tier == Tier::Thorough || i % 2 == 0).map(|(_, c)| c.clone()).collect();
+    ctx.run_list(&VF, &fp);
     match ctx.tier {
         Tier::Quick => ctx.run_variant(&V, ctx.scale(24_000, 0)),
         Tier::Thorough => {
@@ -204,7 +219,7 @@ pub fn run(ctx: &Ctx) -> i32 {
     }
     ctx.finish(
         "translation_validation",
-        "(bounded-exhaustive) all 141k patterns of the small grammar of C01, each validated on ALL haystacks in {a,b}^<=4 from every start; plus generated programs biased to what the passes rewrite (literal runs up to 33 chars, counted loops 0..6 on unrollable and non-unrollable bodies, single-char loops over every 1-char node kind, empty/always-failing brackets, lookbehind) ; each program is compiled with and without the optimizer and the two are compared on EVERY haystack of length <= L (4 quick, 4 and 5 thorough) over the program's relevant alphabet (<= 4 symbols) from every start offset (backtracker all starts, PikeVM start 0), plus 2-5 witness haystacks sampled from the program's own language (so that literals longer than L, counted loops and lookbehind contexts are reached). Non-trivial = the optimizer changed the program (Debug dumps differ) and some haystack matched.",
+        "(bounded-exhaustive) all 141k patterns of the small grammar of C01, each validated on ALL haystacks in {a,b}^<=4 from every start; the flag slice of C01 (200k pattern/flag combinations over all 16 i,m,s x legacy/u sets; every second one in the quick tier) on ALL haystacks over {a, A, LF} up to length 3 from every start; plus generated programs biased to what the passes rewrite (literal runs up to 33 chars, counted loops 0..6 on unrollable and non-unrollable bodies, single-char loops over every 1-char node kind, empty/always-failing brackets, lookbehind) ; each program is compiled with and without the optimizer and the two are compared on EVERY haystack of length <= L (4 quick, 4 and 5 thorough) over the program's relevant alphabet (<= 4 symbols) from every start offset (backtracker all starts, PikeVM start 0), plus 2-5 witness haystacks sampled from the program's own language (so that literals longer than L, counted loops and lookbehind contexts are reached). Non-trivial = the optimizer changed the program (Debug dumps differ) and some haystack matched.",
         &["bounded equivalence only: haystacks longer than L or over other characters are not examined", "fuel hook cuts runaway searches (counted)"],
     )
 }
